@@ -162,7 +162,7 @@ PROPS["C07"] = dict(
 
 ALL_SLICES = ["time", "network", "net_enum", "limits", "json_out", "tour_pos", "tour_mod", "path", "tour_ctor", "formation", "transition",
               "tsp_ranges", "admission", "reassign", "pipeline", "mcf_bounds", "sched_guard", "depot_usage", "network_new", "json_writer",
-              "objective", "train_formation_update", "update_tours", "remove_segment", "spawn_vehicle", "add_path", "override_reassign", "sched_ctor", "depot_ops", "fit_reassign", "dummy_ops", "objective_eval"]
+              "objective", "train_formation_update", "update_tours", "remove_segment", "spawn_vehicle", "add_path", "override_reassign", "sched_ctor", "depot_ops", "fit_reassign", "dummy_ops", "objective_eval", "swaps", "swaps_sem"]
 PROPS["C06"] = dict(
     slices=["time", "network_new", "tsp_ranges", "mcf_bounds", "limits", "objective", "pipeline", "json_out", "transition", "sched_ctor"],
     thorough_slices=ALL_SLICES,
@@ -190,8 +190,21 @@ PROPS["C08"] = dict(
     ],
 )
 
+PROPS["C11"] = dict(
+    slices=["swaps", "swaps_sem"],
+    thorough_slices=["swaps", "swaps_sem", "remove_segment", "override_reassign", "fit_reassign", "add_path", "spawn_vehicle", "dummy_ops", "depot_ops", "update_tours", "train_formation_update"],
+    witness_family=None,
+    level_text="per-function links: Verus proves on the verbatim bodies of the four neighbourhood moves (RemoveSingleNode, AddTripForHitchHiking, SpawnVehicleForMaintenance, PathExchange: Swap::apply) and of improve_depot_and_recompute_transitions that every candidate is exactly the documented composition of schedule modifications (with every modification an uninterpreted function of its arguments: wiring), that no unwrap / index of these bodies can panic under stated preconditions on the move's parameters, and -- for RemoveSingleNode with the real contract of remove_segment -- that the candidate is a schedule with valid ids, exact depot usage, the removed trip handed back in a fresh dummy tour and exact aggregates; the modifications themselves are under contract one by one (thorough tier: their slices), each taking the schedule invariants as precondition. That every modification re-establishes ALL invariants the next one needs (the induction over compositions), the rayon generator and that the base schedule is only read (a `&Schedule` parameter: Rust's type system, not a proof obligation) are NOT decided",
+    level_note="trusted: A-wire (modification stubs `r == sw::f(args)`), A-dyn (hand-declared trait Swap with a precondition hook), A-std (sort, dedup, filter_map), A-derive (Ord of VehicleTypeIdx), A-clone (Schedule::clone)",
+    scope="solver/src/local_search/neighborhood/swaps.rs and swaps/*.rs (Swap::apply of the four moves, improve_depot_and_recompute_transitions)",
+    assumptions=A_COMMON + A_ITER + [
+        "A-wire: at the composition level each schedule modification is an uninterpreted function of its arguments; its real contract is proved in its own slice (thorough tier) under the schedule invariants as precondition",
+        "the induction 'every modification re-establishes every invariant' is proved only in part (the clauses each modification slice lists); candidates of the three composite moves are therefore not proved structurally valid end to end",
+        "the parallel neighbourhood generator (rayon, iterators over vehicles / segments) is not under contract; preconditions on the moves' parameters (real vehicles, existing formations) are what the iterators are documented to pass",
+    ],
+)
+
 NOT_APPLICABLE = {
-    "C11": "neighbourhood candidates are compositions of schedule-level modifications generated under rayon; outside per-function contracts. The schedule-level modifications the swaps are composed of are under contract one by one (C13 / C09 / C10: remove_segment, override_reassign, add_path_to_vehicle_tour, spawn_vehicle_for_path, improve_depots, recompute_transitions_for), each under the schedule invariants as precondition; that every modification re-establishes ALL of them (the induction the property needs) is proved only in part, and the Swap::apply compositions and the rayon generator are not under contract",
     "C14": "optimality of the circulation returned by rs_graph::mcf::network_simplex; the network construction is a 230-line loop over HashMaps with I/O. Per-function parts that are proved elsewhere: the edge bounds of the flow network (C02 / C07 / C06, slice mcf_bounds), the predecessor enumeration (C17) and, for the last sentence, Schedule::from_tours turns every given tour into the tour of exactly one vehicle (obligation C14.from_tours.one_vehicle_per_given_tour in slice sched_ctor, run under C09 / C10); the decomposition of the circulation into tours (solve_for_vehicle_type after the solver call) is not under contract",
     "C18": "HTTP concurrency and fault isolation across tokio tasks: no thread support in Verus (without rewriting to its permission types) or Kani",
 }
